@@ -474,6 +474,45 @@ class Weaver:
             replace[s_] = (c2 + 4, "verif_repeat_take_collect_g(%s, %s)" % (x.strip(), y.strip()), "src", None)
             fired("R7:repeat-take-collect")
 
+        # R25 constant-condition branch elimination: `if size_of::<A>() OP size_of::<B>() { X } else { Y }` with A, B resolved to
+        # primitive integer types is decided at monomorphisation (rustc drops the dead branch); only the live block is emitted.
+        # (needed where the dead branch is outside Verus's subset: the `unsafe { align_to }` arm of the slice readers)
+        if getattr(unit, "const_branches", False):
+            for h in _find_seq(toks, bo, bc, ["if", "size_of", "::", "<"]):
+                g1 = _angle_close(toks, h + 3)
+                if g1 != h + 5 or [t.text for t in toks[g1 + 1:g1 + 3]] != ["(", ")"]:
+                    continue
+                k = g1 + 3
+                op = toks[k].text
+                if toks[k + 1].text == "=" and op in (">", "<", "=", "!"):
+                    op += "="; k += 1
+                if op not in (">=", "<=", "==", "!=", ">", "<"):
+                    continue
+                k += 1
+                if [t.text for t in toks[k:k + 3]] != ["size_of", "::", "<"]:
+                    continue
+                g2 = _angle_close(toks, k + 2)
+                if g2 != k + 4 or [t.text for t in toks[g2 + 1:g2 + 3]] != ["(", ")"] or toks[g2 + 3].text != "{":
+                    continue
+                ta = subst.get(toks[h + 4].text, toks[h + 4].text)
+                tb = subst.get(toks[k + 3].text, toks[k + 3].text)
+                if ta not in INT_BITS or tb not in INT_BITS:
+                    continue
+                a_, b_ = INT_BITS[ta], INT_BITS[tb]
+                val = {">=": a_ >= b_, "<=": a_ <= b_, "==": a_ == b_, "!=": a_ != b_, ">": a_ > b_, "<": a_ < b_}[op]
+                then_o = g2 + 3
+                then_c = pairs[then_o]
+                if toks[then_c + 1].text != "else" or toks[then_c + 2].text != "{":
+                    continue
+                else_o = then_c + 2
+                else_c = pairs[else_o]
+                if val:
+                    replace[h] = (then_o - 1, "", "src", None)             # drop `if COND`
+                    replace[then_c + 1] = (else_c, "", "src", None)        # drop `else { .. }`
+                else:
+                    replace[h] = (else_o - 1, "", "src", None)             # drop `if COND { .. } else`
+                fired("R25:const-branch")
+
         # R3 size_of
         for h in _find_seq(toks, bo, bc, ["size_of", "::", "<"]):
             gc = _angle_close(toks, h + 2)
